@@ -57,6 +57,9 @@ def coef_at(w, coefs, a, s, cn, P):
     if w.nd == 1:
         return w.at(arr, (0,))
     idx = tuple(P[b] - 1 for b in range(w.nd) if b != a)
+    extra = len(arr.shape) - len(idx)
+    if extra > 0:          # e.g. the default 2-D left.c has shape (1, Ny)
+        idx = (0,) * extra + idx
     return w.at(arr, idx)
 
 
